@@ -2,7 +2,7 @@
    [wf eps l]: l is what a Timeline iterates (strictly sorted, members non-empty; C01).
    A gap of d ticks is bridged iff d <= th = max eps (collar - 1), i.e. iff it is
    empty at the precision or strictly shorter than the collar. Statements only. *)
-From PV Require Import Model.Timeline Proofs.SortedP Proofs.TimelineInvP Proofs.SupportP Proofs.MeasureP.
+From PV Require Import Model.Timeline Proofs.SortedP Proofs.TimelineInvP Proofs.SupportP Proofs.MeasureP Proofs.SupportTwiceP.
 
 Theorem C04_applies_to_reachable_timelines : forall eps t A, R eps t A -> wf eps (t_iter t).
 Proof. exact wf_reachable. Qed.
@@ -50,6 +50,15 @@ Proof. exact (fun k => support_iter_cover_sound eps collar Heps l k Hwf). Qed.
 Theorem C04_idempotent : support eps collar (support eps collar l) = support eps collar l.
 Proof. exact (support_idempotent eps collar Heps l Hwf). Qed.
 End C04.
+
+(* merging in two passes, the default support() first and any collar afterwards, is merging once with that collar: a
+   timeline that came out of support() is not a special object (every precision) *)
+Theorem C04_support_with_collar_of_a_support : forall eps c l, 0 <= eps -> 0 <= c -> wf eps l ->
+  support eps c (support eps 0 l) = support eps c l.
+Proof. exact support_of_default_support. Qed.
+Theorem C04_smaller_collar_first_changes_nothing : forall eps c0 c, 0 <= eps -> th eps c0 <= th eps c -> forall l, wf eps l ->
+  support eps c (support eps c0 l) = support eps c l.
+Proof. exact support_twice. Qed.
 
 (* exact statements at eps = 0, collar = 0 *)
 Theorem C04_support_canonical_cells : forall l, wf 0 l ->
@@ -108,6 +117,8 @@ Print Assumptions C04_support_canonical_cells.
 Print Assumptions C04_canonical_decomposition_unique.
 Print Assumptions C04_support_is_the_unique_canonical.
 Print Assumptions C04_absorbs_covered.
+Print Assumptions C04_support_with_collar_of_a_support.
+Print Assumptions C04_smaller_collar_first_changes_nothing.
 Print Assumptions C04_duration_is_measure.
 Print Assumptions C04_duration_at_least_measure.
 Print Assumptions C04_duration_at_most_measure_plus_eps.
